@@ -3,6 +3,7 @@ package c07
 
 import (
 	"bytes"
+	"errors"
 	"fmt"
 	"io"
 	"net/http"
@@ -158,7 +159,13 @@ type attemptScript struct {
 	headers  [][2]string
 	writes   [][]byte
 	explicit bool // send a true Content-Length
+	copyMode bool // the body is streamed with io.Copy from a reader that is nothing but a Reader
 }
+
+// plainReader hides everything but Read (no WriteTo, no Len).
+type plainReader struct{ r io.Reader }
+
+func (p plainReader) Read(b []byte) (int, error) { return p.r.Read(b) }
 
 func genScript(t *rapid.T) []attemptScript {
 	n := rapid.IntRange(1, 4).Draw(t, "scriptLen")
@@ -175,6 +182,7 @@ func genScript(t *rapid.T) []attemptScript {
 			}
 		}
 		s.explicit = rapid.IntRange(0, 2).Draw(t, "explicitCL") == 0
+		s.copyMode = rapid.IntRange(0, 3).Draw(t, "ioCopy") == 0
 		out = append(out, s)
 	}
 	return out
@@ -216,10 +224,34 @@ func scriptHandler(script []attemptScript, calls *int) http.Handler {
 		if s.status != 0 {
 			w.WriteHeader(s.status)
 		}
+		if s.copyMode { // file servers and proxies stream: io.Copy / http.ServeContent, never Write
+			_, _ = io.Copy(w, plainReader{bytes.NewReader(s.body())})
+			return
+		}
 		for _, wr := range s.writes {
 			_, _ = w.Write(wr)
 		}
 	})
+}
+
+// flakyClient is the client's connection seen from the server: it accepts a number of body
+// bytes and then fails every write (the client went away while the response was delivered).
+type flakyClient struct {
+	*sim.Recorder
+	left int
+}
+
+func (f *flakyClient) Write(b []byte) (int, error) {
+	if f.left <= 0 {
+		return 0, errors.New("write: broken pipe")
+	}
+	if len(b) > f.left {
+		n, _ := f.Recorder.Write(b[:f.left])
+		f.left = 0
+		return n, errors.New("write: broken pipe")
+	}
+	f.left -= len(b)
+	return f.Recorder.Write(b)
 }
 
 func effective(status int) int {
@@ -355,13 +387,19 @@ func TestC07_InProcess(t *testing.T) {
 		}
 		rec := sim.NewRecorder()
 		req := httptest.NewRequest(c.method, "http://front/x", nil)
+		var client http.ResponseWriter = rec
+		gone := -1
+		if rapid.IntRange(0, 5).Draw(t, "clientGoesAway") == 0 {
+			gone = rapid.IntRange(0, 6000).Draw(t, "acceptedBytes")
+			client = &flakyClient{rec, gone}
+		}
 		func() {
 			defer func() {
 				if p := recover(); p != nil {
 					t.Fatalf("buffer panicked: %v\ncase: %s", p, c.describe())
 				}
 			}()
-			b.ServeHTTP(rec, req)
+			b.ServeHTTP(client, req)
 		}()
 		want := expectedInvocations(c.expr, c.script, c.method)
 		if calls != want {
@@ -386,7 +424,13 @@ func TestC07_InProcess(t *testing.T) {
 		if !sim.SameStrings(gotL, wantL) {
 			t.Fatalf("client got headers %q, the final attempt (#%d) produced %q\ncase: %s", gotL, want, wantL, c.describe())
 		}
-		if c.method != "HEAD" && final.status != 204 && final.status != 304 {
+		if gone >= 0 && c.method != "HEAD" && final.status != 204 && final.status != 304 && len(final.body()) > gone {
+			// the client stopped taking bytes: what it did take is the beginning of the final
+			// attempt's body and nothing else follows (no second response on top of the first)
+			if !bytes.HasPrefix(final.body(), rec.Body()) {
+				t.Fatalf("the client took %d bytes and went away; it holds %d bytes (%.30q...) which are not the beginning of the final attempt's body\ncase: %s", gone, len(rec.Body()), rec.Body(), c.describe())
+			}
+		} else if c.method != "HEAD" && final.status != 204 && final.status != 304 {
 			if !bytes.Equal(rec.Body(), final.body()) {
 				t.Fatalf("client got a body of %d bytes (%.20q...), the final attempt (#%d) wrote %d bytes (%.20q...)\ncase: %s", len(rec.Body()), rec.Body(), want, len(final.body()), final.body(), c.describe())
 			}
